@@ -195,6 +195,18 @@ def _run(c, drv):
         A = gen.relayout(_arr(c['data'], c['dtype'], shape), lay)
         b = c['border']
         kw = {} if c.get('omit') else dict(border=b)
+        # (1) the property-level observable first: the crop against the proved box grown by `border` and clipped
+        crop = mh.croptobbox(A, **kw)
+        flat = A.ravel(order='C')
+        got = crop.ravel(order='C').tolist()
+        if drv['spec'] != 'none':
+            want = flat[core.ints(drv['spec'])].tolist() if drv['spec'] else []
+            if got != want:
+                return [dict(kind='property', key='croptobbox:border',
+                             detail=dict(got=got, spec=want, shape=crop.shape, border=b))]
+            if int(np.count_nonzero(crop)) != int(np.count_nonzero(A)):
+                return [dict(kind='property', key='croptobbox:border', detail=dict(why='lost a non-zero pixel'))]
+        # (2) the model of the wrapper's arithmetic (upper end not clipped, negative borders, slice objects)
         r = [int(x) for x in mh.bbox(A, **kw).tolist()]
         box = core.ints(drv['box'])
         if r != box:
@@ -205,17 +217,6 @@ def _run(c, drv):
         bounds = core.ints(drv['slices'])
         if [x.indices(n)[:2] for x, n in zip(sl, A.shape)] != [(bounds[2 * j], bounds[2 * j + 1]) for j in range(A.ndim)]:
             return [dict(kind='model', key='bbox:slice-bounds-model', detail=dict(got=str(sl), model=bounds))]
-        crop = mh.croptobbox(A, **kw)
-        flat = A.ravel(order='C')
-        got = crop.ravel(order='C').tolist()
-        if drv['spec'] != 'none':
-            want = flat[core.ints(drv['spec'])].tolist() if drv['spec'] else []
-            if got != want:
-                return [dict(kind='property', key='croptobbox:border',
-                             detail=dict(got=got, spec=want, shape=crop.shape, border=b))]
-            nz = int(np.count_nonzero(A))
-            if int(np.count_nonzero(crop)) != nz:
-                return [dict(kind='property', key='croptobbox:border', detail=dict(why='lost a non-zero pixel'))]
         cidx = core.ints(drv['cidx'])
         if list(crop.shape) != core.ints(drv['cshape']) or got != (flat[cidx].tolist() if cidx else []):
             return [dict(kind='model', key='croptobbox:border-model',
